@@ -147,6 +147,15 @@ CHECKS = {
             "Trusted: z3; file model (open('wb') truncates, write at own offset, os.replace atomic); abstract profile payloads. Thread "
             "interleavings finer than the file operations are outside the model.",
             "DESIGN.md section 3 C15", ""),
+    "C18": (True,
+            "Precedence: for every configurable option the subset of places that set it is symbolic (command line, user section, library "
+            "section, OFX Home lookup); merge_config/read_config/merge_from_ofxhome run instrumented and the effective value must be the "
+            "highest-ranking one, independently of other options. Persistence: from a symbolic prior file state, --write of a symbolic choice "
+            "among candidate values (incl. '%' URLs, the library default, multi-element lists), then a run without the option, then another "
+            "--write: same effective value, no password stored, nothing on dry run, one default CLIENTUID kept.",
+            "Trusted: z3 (decides the symbolic choices; values are concrete candidates because configparser rejects symbolic strings); real "
+            "configparser on a private temporary directory; argparse and the FI database content are outside the claim.",
+            "DESIGN.md section 3 C18", ""),
 }
 
 NOT_YET = {
